@@ -7,7 +7,7 @@ def run(rep, tier, seed, replay):
     c.build_harness()
     stats = {}
     evals = vecs = 0
-    mine = rt.SKIP_CHECKS | {"skip-depth", "askip", "askip-err", "askip-depth"}
+    mine = rt.SKIP_CHECKS | {"skip-depth", "askip", "askip-err", "askip-depth", "adec-crash"}
     for vset in ("universe", "deep"):
         vsum, vmism, vst = rt.drive_vectors(tier, vset)
         stats[vset] = vsum
